@@ -14,7 +14,7 @@ VARIABLES l, prev
 Init == l = 1 /\ prev = <<"", "", 0, 0>>
 Judge(e) ==
   LET say(ok, why) == IF ok THEN TRUE ELSE (PrintT(<<"BAD", l, why>>) /\ FALSE)
-  IN /\ say(e.nt > 0, "empty-output")
+  IN \* (an empty output is legitimate: e.g. a difference whose second operand swallows the first)
      /\ say(e.unmatched = 0, "open-or-misoriented-edge")
      /\ say(e.degen = 0, "degenerate-item")
      /\ say(e.outside = 0, "vertex-outside-sampled-box")
